@@ -51,7 +51,7 @@ def ret_exprs(fn, P, variant='Result::Ok'):
     return out
 
 
-def slice_sites(fn, P, cn, pname):
+def slice_sites(fn, P, cn, pname, detail=False):
     """every place where a sub-slice of parameter `pname` is formed — x[a..b], x.split_at(k), slices of such slices —
     as (block, [normalised `index($p, range)` expressions]).  split_at yields two.  The expressions are normalised, so
     `x.split_at(65).1.split_at(32).0` and `x[65..97]` are the same site value."""
@@ -75,5 +75,5 @@ def slice_sites(fn, P, cn, pname):
             parts = [simplify_slices(norm(E('field', str(i), [dest], c={'fidx': i}))) for i in (0, 1)]
         else:
             parts = [dest]
-        out.append((b, parts))
+        out.append((b, parts, last(t['fn']['name']), a0) if detail else (b, parts))
     return out
